@@ -59,27 +59,31 @@ SpecObs(k) == LET r == SetToSeq(SpecTree(k)) IN
     [tree |-> r, disk |-> r, conflicts |-> <<>>, base |-> SetToSeq(ByPath(Base(k))),
      this |-> SetToSeq(ByPath(This(k))), other |-> SetToSeq(ByPath(Other(k)))]
 LawsHoldOnSpec ==
+    LET st == SpecTree(c) IN
     /\ WellFormed(c) /\ c.law \in Holds(c)
-    \* all laws that apply to one triple demand the same tree
-    /\ \A n, m \in Holds(c) : Result(n, c) = Result(m, c)
+    \* all laws that apply to one triple accept a common tree
+    /\ Common(c) # {}
     /\ Failed(c, SpecObs(c)) = {} /\ FixtureOk(c, SpecObs(c))
-    \* the result tree is a tree: one entry per path, every entry below a directory of the tree
-    /\ \A e, f \in SpecTree(c) : e.p = f.p => e = f
-    /\ (c.fl = "ids" => \A e \in SpecTree(c) : e.k # "directory" \/ e.c = "")
+    \* the result tree is a tree: one entry per path
+    /\ \A r \in Common(c) : Unique(r)
+    /\ (c.fl = "ids" => \A e \in st : e.k # "directory" \/ e.c = "")
     \* law 4 on identities: applying the two edit sets one after the other, in either order, is the union
     /\ ("L4" \in Holds(c) /\ c.fl = "ids") =>
           /\ Applicable(This(c), DO(c)) /\ Applicable(Other(c), DT(c))
-          /\ Apply(This(c), DO(c)) = Apply(Base(c), DT(c) \cup DO(c))
-          /\ Apply(Other(c), DT(c)) = Apply(Base(c), DT(c) \cup DO(c))
-          /\ Valid(Apply(Base(c), DT(c) \cup DO(c)))
+          /\ Apply(This(c), DO(c)) = IdUnion(c)
+          /\ Apply(Other(c), DT(c)) = IdUnion(c)
+          /\ Valid(IdUnion(c))
     \* law 4 with an empty side is law 1 / law 2
-    /\ ("L4" \in Holds(c) /\ DO(c) = {}) => Result("L4", c) = Result("L1", c)
+    /\ ("L4" \in Holds(c) /\ DO(c) = {}) => Results("L4", c) = Results("L1", c)
+    /\ ("L4" \in Holds(c) /\ DT(c) = {}) => Results("L4", c) = Results("L2", c)
 
 \* anti-vacuity witnesses: TLC must find these states
 \* one side renames the directory, the other edits the file inside it
 WitnessDirRename == ~(c.law = "L4" /\ c.fl = "ids" /\ E("ren", "d") \in DT(c) /\ E("mod", "da") \in DO(c))
 \* the result of a law-4 merge is neither THIS nor OTHER
 WitnessRealUnion == ~(c.law = "L4" /\ SpecTree(c) # Proj(c, ByPath(This(c))) /\ SpecTree(c) # Proj(c, ByPath(Other(c))))
+\* path-based law 4 where following a directory rename gives a second acceptable union
+WitnessTwoUnions == ~(c.law = "L4" /\ c.fl = "paths" /\ Cardinality(Results("L4", c)) = 2)
 \* both sides add the same file
 WitnessSameAdd   == ~(c.law = "L3" /\ E("add", "n") \in DT(c))
 \* a kind change reaches THIS from OTHER
